@@ -408,7 +408,7 @@ impl World {
                     vamm_code,
                     owner.clone(),
                     &vamm::InstantiateMsg {
-                        decimals: cfg.dp as u8,
+                        decimals: v.dp as u8,
                         pricefeed: feed_addr.to_string(),
                         margin_engine: None,
                         insurance_fund: Some(ifund_addr.to_string()),
@@ -427,6 +427,9 @@ impl World {
                 )
                 .map_err(|e| format!("{}", e.root_cause()))?;
             reg(VAMM0 + i as u64, &a);
+            // alias strings for the key-alias probes: alias ++ "ice" == addr ++ "alice", alias ++ "rol" == addr ++ "carol"
+            reg(VAMM0 + i as u64 + ALIAS_AL, &Addr::unchecked(format!("{}al", a)));
+            reg(VAMM0 + i as u64 + ALIAS_CA, &Addr::unchecked(format!("{}ca", a)));
             ex(
                 &mut app,
                 "owner",
